@@ -6,6 +6,8 @@
      plain h                   no REPLY_SERIAL on method calls (see the refuted statement, finding F7b)
    "reply" means: a message carrying a REPLY_SERIAL, whatever its type (that is what the bus consults). *)
 From DV Require Import Lib.Base Routing.Routing Spec.RoutingSpec Proofs.RoutingProofs.
+From Coq Require Import ZArith.
+From DV Require Routing.Expire Proofs.RoutingExpireProofs.
 Local Open Scope N_scope.
 
 (* the bus's pending-reply table is exactly the ledger of open calls *)
@@ -171,3 +173,118 @@ Example ex_queue_full_no_slot : st_pend (state_of cfg_t h_q) = []. Proof. vm_com
 Example ex_queue_full_reply_refused :
   snd (step cfg_t (state_of cfg_t (h_q ++ [EDrain 1])) (ESend 1 reply_ok)) = [(1, OErr EAccessDenied 9)]. Proof. vm_compute. reflexivity. Qed.
 Example ex_queue_full_no_noreply : snd (step cfg_t (state_of cfg_t h_q) (ETick 420)) = []. Proof. vm_compute. reflexivity. Qed.
+
+
+(* ================================================================================================
+   The expiry machinery behind NoReply, over explicit (tv_sec, tv_usec) clock readings: Routing/Expire.v mirrors
+   bus/expirelist.c (do_expiration_with_monotonic_time, bus_expirelist_expire, bus_expire_timeout_set_interval,
+   bus_expire_list_add / remove / recheck_immediately) and dbus/dbus-mainloop.c (check_timeout, the two timeout passes of
+   _dbus_loop_iterate); run one-to-one against those C functions by harness/c/routing_h.c. *)
+Module X := Routing.Expire.
+Module XP := Proofs.RoutingExpireProofs.
+Local Open Scope Z_scope.
+
+(* one walk over the list: exactly the due entries go, in list order; the next interval is -1 when nothing waits (or the
+   timeout is infinite), otherwise it never passes the earliest deadline, and it IS the earliest one (ms, rounded down)
+   unless the one-hour cap applies *)
+Theorem C09_expiry_walk : forall after now l,
+  let '(kept, ex, next) := X.do_expiration after now l in
+  kept = filter (fun it => negb (X.due after now it)) l /\
+  ex = map X.it_id (filter (X.due after now) l) /\
+  (0 < after ->
+     match kept with
+     | [] => next = -1
+     | _ => 0 <= next <= 3600 * 1000 /\
+            (forall it, In it kept -> next * 1000 <= XP.deadline_us after it - X.us now) /\
+            (next = 3600 * 1000 \/ exists it, In it kept /\ next = (XP.deadline_us after it - X.us now) / 1000)
+     end) /\
+  (after <= 0 -> next = -1).
+Proof. exact XP.do_expiration_spec. Qed.
+Print Assumptions C09_expiry_walk.
+
+(* not before reply_timeout has elapsed since it was added (unless its callee left) *)
+Theorem C09_expiry_not_early : forall after now l id,
+  In id (snd (fst (X.do_expiration after now l))) ->
+  exists it, In it l /\ X.it_id it = id /\
+    (X.is_marked it = true \/ (0 < after /\ after * 1000 <= X.us now - X.us (X.it_added it))).
+Proof. exact XP.expired_not_early. Qed.
+Print Assumptions C09_expiry_not_early.
+
+(* at the first walk after that it goes *)
+Theorem C09_expiry_when_due : forall after now l it,
+  In it l -> X.due after now it = true ->
+  In (X.it_id it) (snd (fst (X.do_expiration after now l))) /\ ~ In it (fst (fst (X.do_expiration after now l))).
+Proof. exact XP.expired_when_due. Qed.
+Print Assumptions C09_expiry_when_due.
+
+(* after the handler: disabled iff nothing is left, else enabled, to be restarted, with the minimum interval *)
+Theorem C09_expiry_timer_interval : forall x now,
+  let '(x', ex) := X.expire x now in
+  X.x_after x' = X.x_after x /\
+  X.x_items x' = filter (fun it => negb (X.due (X.x_after x) now it)) (X.x_items x) /\
+  ex = map X.it_id (filter (X.due (X.x_after x) now) (X.x_items x)) /\
+  match X.x_items x' with
+  | [] => X.tm_enabled (X.x_timer x') = false
+  | _ => 0 < X.x_after x ->
+         X.tm_enabled (X.x_timer x') = true /\ X.tm_needs_restart (X.x_timer x') = true /\
+         (forall it, In it (X.x_items x') -> X.tm_interval (X.x_timer x') * 1000 <= XP.deadline_us (X.x_after x) it - X.us now) /\
+         (X.tm_interval (X.x_timer x') = 3600 * 1000 \/
+          exists it, In it (X.x_items x') /\ X.tm_interval (X.x_timer x') = (XP.deadline_us (X.x_after x) it - X.us now) / 1000)
+  end.
+Proof. exact XP.expire_timer. Qed.
+Print Assumptions C09_expiry_timer_interval.
+
+(* whatever is done to the list (add, remove, callee left, loop iterations at ANY clock readings): with a finite timeout the
+   timer is enabled whenever an entry waits *)
+Theorem C09_expiry_timer_armed : forall after ops, XP.armed (fst (X.xrun (X.xinit after) ops)).
+Proof. exact XP.armed_always. Qed.
+Print Assumptions C09_expiry_timer_armed.
+
+(* each entry expires at most once; an entry removed by a real reply never expires *)
+Theorem C09_expiry_at_most_once : forall after ops,
+  NoDup (XP.all_adds ops) -> NoDup (concat (snd (X.xrun (X.xinit after) ops))).
+Proof. exact XP.expires_at_most_once. Qed.
+Print Assumptions C09_expiry_at_most_once.
+
+Theorem C09_expiry_removed_never_expires : forall x id ops,
+  NoDup (XP.ids x ++ XP.all_adds ops) -> ~ In id (XP.all_adds ops) ->
+  ~ In id (concat (snd (X.xrun (X.remove x id) ops))).
+Proof. exact XP.removed_never_expires. Qed.
+Print Assumptions C09_expiry_removed_never_expires.
+
+(* check_timeout: never late, at most 1 ms early, and a clock that went backwards restarts the interval *)
+Theorem C09_check_timeout_due : forall now tm,
+  XP.norm now -> XP.norm (X.tm_last tm) -> 0 <= X.tm_interval tm -> XP.fire_at_us tm <= X.us now ->
+  X.check_timeout now tm = (0, tm).
+Proof. exact XP.check_timeout_due. Qed.
+Print Assumptions C09_check_timeout_due.
+
+Theorem C09_check_timeout_not_early : forall now tm,
+  XP.norm now -> XP.norm (X.tm_last tm) -> 0 < X.tm_interval tm -> fst (X.check_timeout now tm) = 0 ->
+  XP.fire_at_us tm - X.us now < 1000.
+Proof. exact XP.check_timeout_not_early. Qed.
+Print Assumptions C09_check_timeout_not_early.
+
+Theorem C09_check_timeout_clock_backward : forall now tm,
+  XP.norm now -> XP.norm (X.tm_last tm) -> 0 <= X.tm_interval tm <= 3600 * 1000 -> X.us now + 1000 <= X.us (X.tm_last tm) ->
+  X.check_timeout now tm = (X.tm_interval tm, X.mkTimer (X.tm_enabled tm) (X.tm_interval tm) (X.tm_needs_restart tm) now).
+Proof. exact XP.check_timeout_clock_backward. Qed.
+Print Assumptions C09_check_timeout_clock_backward.
+
+(* the routing model's millisecond clock applies the same test *)
+Theorem C09_expiry_test_agrees : forall cf now id p,
+  Routing.expired cf now p = X.due (XP.after_of cf) (XP.tv_of_ms now) (XP.item_of id p).
+Proof. exact XP.expired_agrees. Qed.
+Print Assumptions C09_expiry_test_agrees.
+
+(* non-vacuity: two entries 150 ms apart, timeout 300 ms: the first walk arms the timer with 300, the walk at +300.000 ms
+   expires the first only and re-arms with 150 *)
+Example ex_expiry_run :
+  snd (X.xrun (X.xinit 300) [X.XAdd 1 (X.mkTv 10 0); X.XIter (X.mkTv 10 0) (X.mkTv 10 0) (X.mkTv 10 0); X.XIter (X.mkTv 10 0) (X.mkTv 10 0) (X.mkTv 10 0); X.XAdd 2 (X.mkTv 10 150000);
+                            X.XIter (X.mkTv 10 150000) (X.mkTv 10 300000) (X.mkTv 10 300000)])
+  = [[]; []; []; []; [1]].
+Proof. vm_compute. reflexivity. Qed.
+Example ex_expiry_interval :
+  X.tm_interval (X.x_timer (fst (X.xrun (X.xinit 300) [X.XAdd 1 (X.mkTv 10 0); X.XIter (X.mkTv 10 0) (X.mkTv 10 0) (X.mkTv 10 0); X.XIter (X.mkTv 10 0) (X.mkTv 10 0) (X.mkTv 10 0); X.XAdd 2 (X.mkTv 10 150000);
+                            X.XIter (X.mkTv 10 150000) (X.mkTv 10 300000) (X.mkTv 10 300000)]))) = 150.
+Proof. vm_compute. reflexivity. Qed.
